@@ -1,6 +1,7 @@
 import Pyrealb.Model.Decl
 import Pyrealb.Lemmas.DeclBestMatch
 import Pyrealb.Lemmas.Decl
+import Pyrealb.Lemmas.DeclTotal
 import Pyrealb.Gen.DeclEn
 import Pyrealb.Gen.DeclFr
 import Pyrealb.Gen.DocCells
@@ -11,7 +12,7 @@ and the language-specific helpers; the declarative side (`score`, `FirstMax`, `C
 `Model/BestMatch` without reference to the loops.
 
 * unbounded (`∀ rows kv …`, `∀ rules lex t …`): `bestMatch_spec`, `bestMatch_none_iff`, `first_max_unique`,
-  `compatible_row_selected`, `exact_row_first`, `decline_stem_row`, `adj_periphrase_en`, `adj_periphrase_fr`,
+  `compatible_row_selected`, `exact_row_first`, `decline_stem_row`, `adj_periphrase_en`, `comparative_stem_en`, `adj_periphrase_fr`,
   `veto_uncountable`, `veto_gender`, `decl_total`;
 * finite, by `decide +kernel` over complete generated data, re-proved whenever `/repo` changes (`…_tbl`):
   `doc_cells_tbl` (every documented paradigm cell of docs/documentation.html on the shipped tables),
@@ -281,99 +282,376 @@ theorem adj_periphrase_en_holds : adj_periphrase_en := by
       have h2 : normLemma wMost = "most".toList := by decide
       simp only [this, h2]
 
-/-- the periphrase of the French comparative: `meilleur`/`pire` inflected for `bon`/`mauvais`, else `plus` + the
-    adjective inflected -/
-def frCompTokens (sub : Pos → Str → FV → FV → Except Crash (Str × Nat)) (t : Term) : Except Crash (List Str) :=
-  match specialFrComp t.lemma with
-  | some sp => do
-    let (r, _) ← sub .A sp t.getG t.getN
-    pure [r]
-  | none => do
-    let (r1, _) ← sub .Adv wPlus t.getG t.getN
-    let (r2, _) ← sub .A t.lemma t.getG t.getN
-    pure [r1, r2]
+/-- **C02.g'** English adverb "without comparative" (table `b1`) that is also an adjective: the comparative is looked
+    up in the adjective's table, and the ending found is attached to the ADJECTIVE's stem (the adverb's stem — its
+    lemma, `b1` having an empty ending — minus the ending of the adjective's table).
+    (Refuted until /repo commit 0efe565: the ending was attached to the adverb's own stem, "earlyier".) -/
+def comparative_stem_en : Prop :=
+  ∀ (rules : Rules) (lex : Lex) (t : Term) (table : Table) (stem : Str) (out : Out)
+    (info : LexEntry) (aentry : PosEntry) (atab : Str) (atable : Table) (f : Str) (e : Str),
+    lookup t.lemma lex = some info → lookup "A".toList info = some aentry →
+    lookup "tab".toList aentry = some (LV.str atab) → lookup atab rules = some atable →
+    t.pF = some (.str f) → bestMatch atable.rows [(Feat.f, .str f)] = some e → stem = t.lemma →
+    declineAdjEn rules lex t "b1".toList table stem = .ok out →
+    out.toks = [dropRight t.lemma atable.ending.length ++ e]
 
-/-- **C02.h** French adjectives: when a form exists, `.f("co")` yields the comparative periphrase and `.f("su")` the
-    realization of `D("le")` in the same gender and number followed by it; every component is the realization of the
-    corresponding auxiliary terminal -/
+theorem comparative_stem_en_holds : comparative_stem_en := by
+  intro rules lex t table stem out info aentry atab atable f e h1 h2 h3 h4 hf hb hstem hd
+  unfold declineAdjEn at hd
+  rw [hf] at hd
+  dsimp only at hd
+  have hne : ("b1".toList = "a1".toList) = False := by decide
+  have hrows : adjRowsEn rules lex t "b1".toList table stem =
+      .ok (some (atable.rows, if atable.ending.length > 0 then dropRight stem atable.ending.length else stem)) := by
+    unfold adjRowsEn
+    simp only [if_true]
+    rw [h1]; dsimp only; rw [h2]; dsimp only; rw [h3]; dsimp only; rw [h4]
+    rfl
+  simp only [hne, if_false, bind, Except.bind, hrows, hb, pure, Except.pure, Except.ok.injEq] at hd
+  subst hd
+  subst hstem
+  by_cases hlen : atable.ending.length > 0
+  · simp [hlen]
+  · have : atable.ending.length = 0 := by omega
+    simp [this, dropRight]
+
+/-- **C02.h** French adjectives: when a form exists, `.f("co")` yields the comparative proper — the realization of
+    `A("meilleur")` / `A("pire")` in the same gender and number for `bon` / `mauvais`, else the realization of
+    `Adv("plus")` followed by that of the adjective itself — and `.f("su")` the realization of `D("le")` in the same
+    gender and number followed by the comparative -/
 def adj_periphrase_fr : Prop :=
-  ∀ (sub : Pos → Str → FV → FV → Except Crash (Str × Nat)) (t : Term) (table : Table) (stem : Str) (out : Out),
+  (∀ (sub : Pos → Str → FV → FV → Except Crash (Str × Nat)) (t : Term) (table : Table) (stem : Str) (out : Out),
     declineAdjFr sub t table stem = .ok out →
     bestMatch table.rows [(Feat.g, t.getG), (Feat.n, t.getN)] ≠ none →
-    (t.pF = some (.str "co".toList) → frCompTokens sub t = .ok out.toks) ∧
+    (t.pF = some (.str "co".toList) → ∃ rs w, frComp sub t.lemma t.getG t.getN = .ok (rs, w) ∧ out.toks = rs) ∧
     (t.pF = some (.str "su".toList) →
-      ∃ le w rest, sub .D wLe t.getG t.getN = .ok (le, w) ∧ frCompTokens sub t = .ok rest ∧
-        out.toks = le :: rest)
+      ∃ le w0 rs w, sub .D "le".toList t.getG t.getN = .ok (le, w0) ∧
+        frComp sub t.lemma t.getG t.getN = .ok (rs, w) ∧ out.toks = le :: rs)) ∧
+  (∀ (sub : Pos → Str → FV → FV → Except Crash (Str × Nat)) (lemma : Str) (g n : FV),
+    (∀ r w, lemma = "bon".toList → sub .A "meilleur".toList g n = .ok (r, w) → frComp sub lemma g n = .ok ([r], w)) ∧
+    (∀ r w, lemma = "mauvais".toList → sub .A "pire".toList g n = .ok (r, w) → frComp sub lemma g n = .ok ([r], w)) ∧
+    (∀ r1 w1 r2 w2, lemma ≠ "bon".toList → lemma ≠ "mauvais".toList →
+      sub .Adv "plus".toList g n = .ok (r1, w1) → sub .A lemma g n = .ok (r2, w2) →
+      frComp sub lemma g n = .ok ([r1, r2], w1 + w2)))
 
 theorem adj_periphrase_fr_holds : adj_periphrase_fr := by
-  intro sub t table stem out h hbm
-  unfold declineAdjFr at h
-  unfold frCompTokens
-  dsimp only at h
-  generalize hD : sub .D wLe t.getG t.getN = sD at h ⊢
-  generalize hAdv : sub .Adv wPlus t.getG t.getN = sAdv at h ⊢
-  generalize hA : sub .A t.lemma t.getG t.getN = sA at h ⊢
-  cases hb : bestMatch table.rows [(Feat.g, t.getG), (Feat.n, t.getN)] with
-  | none => exact absurd hb hbm
-  | some e =>
-    rw [hb] at h
-    simp only [] at h
-    have hne : (FV.str "su".toList = FV.str "co".toList) = False := by decide
-    constructor
-    · intro hf
-      simp only [hf, if_true] at h
-      cases hs : specialFrComp t.lemma with
-      | some sp =>
-        simp only [hs, bind, Except.bind] at h ⊢
-        cases h1 : sub .A sp t.getG t.getN with
-        | error c => simp [h1] at h
+  constructor
+  · intro sub t table stem out h hbm
+    unfold declineAdjFr at h
+    cases hb : bestMatch table.rows [(Feat.g, t.getG), (Feat.n, t.getN)] with
+    | none => exact absurd hb hbm
+    | some e =>
+      rw [hb] at h
+      dsimp only at h
+      have hne : (FV.str "su".toList = FV.str "co".toList) = False := by decide
+      constructor
+      · intro hf
+        simp only [hf, if_true, bind, Except.bind] at h
+        cases hc : frComp sub t.lemma t.getG t.getN with
+        | error c => rw [hc] at h; cases h
         | ok p =>
-          obtain ⟨r, w⟩ := p
-          simp only [h1, pure, Except.pure, Except.ok.injEq] at h ⊢
-          subst h; rfl
-      | none =>
-        simp only [hs, bind, Except.bind] at h ⊢
-        cases sAdv with
-        | error c => simp at h
-        | ok p1 =>
-          obtain ⟨r1, w1⟩ := p1
-          simp only [] at h ⊢
-          cases sA with
-          | error c => simp at h
-          | ok p2 =>
-            obtain ⟨r2, w2⟩ := p2
-            simp only [pure, Except.pure, Except.ok.injEq] at h ⊢
-            subst h; rfl
-    · intro hf
-      simp only [hf, hne, if_false, if_true, bind, Except.bind] at h
-      cases sD with
-      | error c => simp at h
-      | ok p0 =>
-        obtain ⟨le, w0⟩ := p0
-        simp only [] at h
-        cases hs : specialFrComp t.lemma with
-        | some sp =>
-          simp only [hs, bind, Except.bind] at h ⊢
-          cases h1 : sub .A sp t.getG t.getN with
-          | error c => simp [h1] at h
+          obtain ⟨rs, w⟩ := p
+          rw [hc] at h
+          simp only [pure, Except.pure, Except.ok.injEq] at h
+          subst h
+          exact ⟨rs, w, rfl, rfl⟩
+      · intro hf
+        simp only [hf, hne, if_false, if_true, bind, Except.bind] at h
+        cases h0 : sub .D wLe t.getG t.getN with
+        | error c => rw [h0] at h; cases h
+        | ok p0 =>
+          obtain ⟨le, w0⟩ := p0
+          rw [h0] at h
+          dsimp only at h
+          cases hc : frComp sub t.lemma t.getG t.getN with
+          | error c => rw [hc] at h; cases h
           | ok p =>
-            obtain ⟨r, w⟩ := p
-            simp only [h1, pure, Except.pure, Except.ok.injEq] at h ⊢
+            obtain ⟨rs, w⟩ := p
+            rw [hc] at h
+            simp only [pure, Except.pure, Except.ok.injEq] at h
             subst h
-            exact ⟨le, w0, [r], rfl, rfl, rfl⟩
-        | none =>
-          simp only [hs, bind, Except.bind] at h ⊢
-          cases sAdv with
-          | error c => simp at h
-          | ok p1 =>
-            obtain ⟨r1, w1⟩ := p1
-            simp only [] at h ⊢
-            cases sA with
-            | error c => simp at h
-            | ok p2 =>
-              obtain ⟨r2, w2⟩ := p2
-              simp only [pure, Except.pure, Except.ok.injEq] at h ⊢
-              subst h
-              exact ⟨le, w0, [r1, r2], rfl, rfl, rfl⟩
+            exact ⟨le, w0, rs, w, h0, rfl, rfl⟩
+  · intro sub lemma g n
+    refine ⟨?_, ?_, ?_⟩
+    · intro r w hl hs
+      subst hl
+      have : specialFrComp "bon".toList = some "meilleur".toList := by decide
+      unfold frComp
+      rw [this]
+      simp only [bind, Except.bind, hs]; rfl
+    · intro r w hl hs
+      subst hl
+      have : specialFrComp "mauvais".toList = some "pire".toList := by decide
+      unfold frComp
+      rw [this]
+      simp only [bind, Except.bind, hs]; rfl
+    · intro r1 w1 r2 w2 h1 h2 hs1 hs2
+      have : specialFrComp lemma = none := by
+        unfold specialFrComp; rw [if_neg h1, if_neg h2]
+      unfold frComp
+      rw [this]
+      have hs1' : sub .Adv wPlus g n = .ok (r1, w1) := hs1
+      simp only [bind, Except.bind, hs1', hs2]; rfl
+
+/-! ## the lexicon's vetoes -/
+
+/-- `lexicon[lemma]["N"][key]` -/
+def lexN (lex : Lex) (lemma key : Str) : Option LV :=
+  match lexPos lex lemma "N".toList with
+  | none => none
+  | some e => lookup key e
+
+theorem prepareNDP_noun (rules : Rules) (lex : Lex) (t : Term) (table : Table) (g n : FV) (hN : t.pos = .N) :
+    ∃ kv, prepareNDP rules lex t table g n false = .ok (t, table.rows, kv) := by
+  unfold prepareNDP
+  have h1 : reqPerson t false = .ok 3 := rfl
+  have h2 : ∀ pe, majesticStep rules lex t table pe n = .ok (t, table.rows) := by
+    intro pe; unfold majesticStep; simp [hN, pure, Except.pure]
+  simp only [bind, Except.bind, h1, h2, hN]
+  exact ⟨_, rfl⟩
+
+/-- **C02.i** English: the plural of a noun the lexicon marks uncountable (`cnt = "no"`) is the bracketed lemma with
+    a warning, whatever the table says -/
+def veto_uncountable : Prop :=
+  ∀ (rules : Rules) (lex : Lex) (t : Term) (table : Table) (stem : Str) (out : Out),
+    t.lang = .en → t.pos = .N → t.getN = .str ['p'] → lexN lex t.lemma "cnt".toList = some (.str "no".toList) →
+    declineNDP rules lex t table stem false = .ok out →
+    out.toks = [bracket t.lemma] ∧ 0 < out.warns
+
+theorem nounChecks_uncountable (lex : Lex) (t : Term) (g : FV) (form : Str) (out : Out)
+    (hen : t.lang = .en) (hc : lexN lex t.lemma "cnt".toList = some (.str "no".toList))
+    (h : nounChecks lex t g (.str ['p']) form = .ok out) : out = morphoOut t := by
+  unfold lexN lexPos at hc
+  unfold nounChecks at h
+  rw [hen] at h
+  simp only [if_true] at h
+  cases h1 : lookup t.lemma lex with
+  | none => rw [h1] at hc; cases hc
+  | some info =>
+    rw [h1] at hc h
+    dsimp only at hc h
+    cases h2 : lookup "N".toList info with
+    | none => rw [h2] at hc; cases hc
+    | some e =>
+      rw [h2] at hc h
+      dsimp only at hc h
+      rw [hc] at h
+      simp only [if_true, pure, Except.pure, Except.ok.injEq] at h
+      exact h.symm
+
+theorem veto_uncountable_holds : veto_uncountable := by
+  intro rules lex t table stem out hen hN hn hc h
+  have hreqN : (if (t.pos = .D ∨ t.pos = .N) ∧ t.getN = .none then FV.str ['s'] else t.getN) = .str ['p'] := by
+    rw [hn]; simp
+  unfold declineNDP at h
+  dsimp only at h
+  rw [hreqN] at h
+  split at h
+  · rw [if_pos hN] at h
+    have := nounChecks_uncountable lex t _ _ out hen hc h
+    subst this; simp [morphoOut]
+  · obtain ⟨kv, hp⟩ := prepareNDP_noun rules lex t table
+      (if (t.pos = .D ∨ t.pos = .N) ∧ t.getG = .none then FV.str ['m'] else t.getG) (.str ['p']) hN
+    simp only [bind, Except.bind, hp] at h
+    split at h
+    · simp only [pure, Except.pure, Except.ok.injEq] at h
+      subst h; simp
+    · split at h
+      · cases h
+      · rw [if_pos hN] at h
+        have := nounChecks_uncountable lex t _ _ out hen hc h
+        subst this; simp [morphoOut]
+
+/-- **C02.j** French: a noun asked in a gender that contradicts the lexicon (which does not say `x`), or whose entry
+    has no gender, is the bracketed lemma with a warning -/
+def veto_gender : Prop :=
+  ∀ (rules : Rules) (lex : Lex) (t : Term) (table : Table) (stem : Str) (out : Out),
+    t.lang = .fr → t.pos = .N →
+    ((∃ e, lexPos lex t.lemma "N".toList = some e ∧ lookup "g".toList e = none) ∨
+     (∃ lg, lexN lex t.lemma "g".toList = some lg ∧ lg.toFV ≠ FV.x ∧ lg.toFV ≠ reqG t)) →
+    declineNDP rules lex t table stem false = .ok out →
+    out.toks = [bracket t.lemma] ∧ 0 < out.warns
+
+theorem nounChecks_gender (lex : Lex) (t : Term) (g n : FV) (form : Str) (out : Out)
+    (hfr : t.lang = .fr)
+    (hc : (∃ e, lexPos lex t.lemma "N".toList = some e ∧ lookup "g".toList e = none) ∨
+          (∃ lg, lexN lex t.lemma "g".toList = some lg ∧ lg.toFV ≠ FV.x ∧ lg.toFV ≠ g))
+    (h : nounChecks lex t g n form = .ok out) : out = morphoOut t := by
+  unfold nounChecks at h
+  rw [hfr] at h
+  dsimp only at h
+  unfold lexN lexPos at hc
+  cases h1 : lookup t.lemma lex with
+  | none => rw [h1] at h; cases h
+  | some info =>
+    rw [h1] at hc h
+    dsimp only at hc h
+    cases h2 : lookup "N".toList info with
+    | none => rw [h2] at h; cases h
+    | some e =>
+      rw [h2] at hc h
+      dsimp only at hc h
+      rcases hc with ⟨e', he', hg⟩ | ⟨lg, hlg, hx, hgne⟩
+      · cases he'
+        rw [hg] at h
+        simp only [pure, Except.pure, Except.ok.injEq] at h
+        exact h.symm
+      · rw [hlg] at h
+        simp only [hx, hgne, ne_eq, not_false_eq_true, and_self, if_true, pure, Except.pure, Except.ok.injEq] at h
+        exact h.symm
+
+theorem veto_gender_holds : veto_gender := by
+  intro rules lex t table stem out hfr hN hc h
+  unfold reqG at hc
+  unfold declineNDP at h
+  dsimp only at h
+  split at h
+  · rw [if_pos hN] at h
+    have := nounChecks_gender lex t _ _ _ out hfr hc h
+    subst this; simp [morphoOut]
+  · obtain ⟨kv, hp⟩ := prepareNDP_noun rules lex t table
+      (if (t.pos = .D ∨ t.pos = .N) ∧ t.getG = .none then FV.str ['m'] else t.getG)
+      (if (t.pos = .D ∨ t.pos = .N) ∧ t.getN = .none then FV.str ['s'] else t.getN) hN
+    simp only [bind, Except.bind, hp] at h
+    split at h
+    · simp only [pure, Except.pure, Except.ok.injEq] at h
+      subst h; simp
+    · split at h
+      · cases h
+      · rw [if_pos hN] at h
+        have := nounChecks_gender lex t _ _ _ out hfr hc h
+        subst this; simp [morphoOut]
+
+/-! ## the documented paradigms, cell by cell, on the shipped tables -/
+
+def rulesOf : Lang → Rules
+  | .en => Gen.DeclEn.tables
+  | .fr => Gen.DeclFr.tables
+
+def lexOf : Lang → Lex
+  | .en => Gen.DocCells.lexEn
+  | .fr => Gen.DocCells.lexFr
+
+/-- **C02.k** every cell of the pronoun / possessive tables of docs/documentation.html: realizing the documented
+    expression on the shipped rule tables yields the documented form -/
+def doc_cells_tbl : Prop :=
+  ∀ c ∈ Gen.DocCells.docCells,
+    realizeText (rulesOf c.spec.lang) (lexOf c.spec.lang) c.spec = .ok c.form
+
+set_option maxRecDepth 100000 in
+theorem doc_cells_tbl_holds : doc_cells_tbl := by
+  unfold doc_cells_tbl
+  decide +kernel
+
+/-- form of `pos(lemma)` with the given options on the shipped tables, with the generated panel of lexicon entries -/
+def shipped (lang : Lang) (pos : Pos) (lemma : String) (opts : List (String × String)) : Except Crash Str :=
+  realizeText (rulesOf lang) (lexOf lang) ⟨lang, pos, lemma.toList, opts.map (fun o => (o.1.toList, OV.str o.2.toList))⟩
+
+/-- **C02.l** the documented periphrases and vetoes on the shipped tables and lexicon entries -/
+def periphrase_tbl : Prop :=
+  shipped .en .A "beautiful" [("f", "co")] = .ok "more beautiful".toList ∧
+  shipped .en .A "beautiful" [("f", "su")] = .ok "most beautiful".toList ∧
+  shipped .en .A "good" [("f", "co")] = .ok "better".toList ∧
+  shipped .en .A "bad" [("f", "su")] = .ok "worst".toList ∧
+  shipped .en .A "big" [("f", "co")] = .ok "bigger".toList ∧
+  shipped .en .Adv "well" [("f", "su")] = .ok "best".toList ∧
+  shipped .en .Adv "fast" [("f", "co")] = .ok "faster".toList ∧
+  shipped .en .Adv "early" [("f", "co")] = .ok "earlier".toList ∧
+  shipped .en .Adv "early" [("f", "su")] = .ok "earliest".toList ∧
+  shipped .en .N "information" [("n", "p")] = .ok "[[information]]".toList ∧
+  shipped .en .N "ox" [("n", "p")] = .ok "oxen".toList ∧
+  shipped .fr .A "grand" [("f", "co")] = .ok "plus grand".toList ∧
+  shipped .fr .A "grand" [("f", "su"), ("g", "f"), ("n", "p")] = .ok "les plus grandes".toList ∧
+  shipped .fr .A "bon" [("f", "co"), ("g", "f")] = .ok "meilleure".toList ∧
+  shipped .fr .A "bon" [("f", "su"), ("g", "f")] = .ok "la meilleure".toList ∧
+  shipped .fr .A "mauvais" [("f", "co")] = .ok "pire".toList ∧
+  shipped .fr .A "mauvais" [("f", "su"), ("n", "p")] = .ok "les pires".toList ∧
+  shipped .fr .N "table" [("g", "m")] = .ok "[[table]]".toList ∧
+  shipped .fr .N "cheval" [("n", "p")] = .ok "chevaux".toList ∧
+  shipped .fr .N "élève" [("g", "f"), ("n", "p")] = .ok "élèves".toList
+
+set_option maxRecDepth 100000 in
+theorem periphrase_tbl_holds : periphrase_tbl := by
+  unfold periphrase_tbl
+  decide +kernel
+
+/-! ## totality -/
+
+/-- **C02.m** the shipped declension tables are well formed (non-empty; `pe` in every row when in the first) -/
+def wf_rules_tbl : Prop := WFRules Gen.DeclEn.tables ∧ WFRules Gen.DeclFr.tables
+
+set_option maxRecDepth 100000 in
+theorem wf_rules_tbl_holds : wf_rules_tbl := by
+  unfold wf_rules_tbl
+  decide +kernel
+
+/-- **C02.n** on well-formed tables the constructor of a declinable terminal never raises, whatever the lemma and
+    the lexicon -/
+def ctor_total : Prop :=
+  ∀ (rules : Rules) (lex : Lex) (lang : Lang) (pos : Pos) (lemma : Str), WFRules rules →
+    ∀ c, mkTerm rules lex lang pos lemma ≠ .error c
+
+theorem ctor_total_holds : ctor_total := by
+  intro rules lex lang pos lemma hw c h
+  obtain ⟨t, ht, _⟩ := mkTerm_spec rules hw lex lang pos lemma
+  rw [ht] at h; cases h
+
+/-- **C02.o'** the executable check swept by the driver over every real lexicon entry implies `Usable` -/
+def usable_sound : Prop :=
+  ∀ (rules : Rules) (lex : Lex) (t : Term), usableB rules lex t = true → Usable rules lex t
+
+theorem usable_sound_holds : usable_sound := usable_of_usableB
+
+/-- **C02.o** realization never raises: well-formed tables; a usable lexicon entry (`Usable`, evaluated on every real
+    entry by the driver); option calls in the value domain of the model (no `.maje()`); and — French comparative — the
+    auxiliary terminals `A(meilleur|pire|lemma)`, `Adv("plus")`, `D("le")` themselves realizable -/
+def decl_total : Prop :=
+  ∀ (rules : Rules) (lex : Lex) (sp : Spec) (t0 : Term),
+    WFRules rules → mkTerm rules lex sp.lang sp.pos sp.lemma = .ok t0 → Usable rules lex t0 → ValidOpts sp.opts →
+    (sp.lang = .fr → ∀ p l g n c, subFr rules lex p l g n ≠ .error c) →
+    ∀ c, realize rules lex sp ≠ .error c
+
+theorem decl_total_holds : decl_total := by
+  intro rules lex sp t0 hw hmk hus hvo hsub c h
+  obtain ⟨t0', hmk', hinv, hlang, hpos, hmaje, hlink⟩ := mkTerm_spec rules hw lex sp.lang sp.pos sp.lemma
+  rw [hmk] at hmk'
+  cases hmk'
+  obtain ⟨t1, hopts, hk, hpe⟩ := applyOpts_spec sp.opts t0 hvo hus.2.1
+  have hinv1 : TabInv rules t1 := tabInv_of_eq hinv hk.tab hk.stem
+  have hus1 : Usable rules lex t1 := by
+    refine ⟨?_, hpe, ?_, ?_⟩
+    · rw [hk.tab, hk.pos, hk.real]; exact hus.1
+    · rw [hk.lang, hk.pos, hk.lemma]; exact hus.2.2.1
+    · rw [hk.lang, hk.pos, hk.lemma]; exact hus.2.2.2
+  have hlink1 : ∀ tb, t1.tab = some tb → ∃ e, lexPos lex t1.lemma t1.pos.name = some e := by
+    rw [hk.tab, hk.lemma, hk.pos]; exact hlink
+  obtain ⟨o, ho⟩ := realGen_total (subFr rules lex) rules hw lex t1 hinv1 hus1 (hk.maje.trans hmaje) hlink1
+    (by rw [hk.lang, hlang]; exact hsub)
+  unfold realize at h
+  simp only [bind, Except.bind, hmk, hopts] at h
+  unfold realTerm at h
+  rw [ho] at h
+  cases h
+
+/-! ### non-vacuity of the hypotheses of the declension clauses (examples) -/
+
+section Examples2
+-- a well-formed, usable request exists: the shipped tables, `Pro("moi")`, valid options
+example : WFRules (rulesOf .fr) := wf_rules_tbl_holds.2
+example : (match mkTerm (rulesOf .fr) (lexOf .fr) .fr .Pro "moi".toList with
+           | .ok t0 => usableB (rulesOf .fr) (lexOf .fr) t0
+           | .error _ => false) = true := by
+  decide +kernel
+example : ValidOpts [("c".toList, OV.str "nom".toList), ("pe".toList, OV.int 2)] := by
+  intro o ho
+  simp only [List.mem_cons, List.not_mem_nil, or_false] at ho
+  rcases ho with rfl | rfl <;> exact ⟨by decide, by intro b h; cases h⟩
+-- the vetoes' hypotheses are satisfiable on the shipped data
+example : lexN (lexOf .en) "information".toList "cnt".toList = some (.str "no".toList) := by decide +kernel
+example : lexN (lexOf .fr) "table".toList "g".toList = some (.str "f".toList) := by decide +kernel
+-- tests (not property theorems): the moi/me special case and a wildcard row
+example : shipped .fr .Pro "moi" [("c", "nom")] = .ok "je".toList := by decide +kernel
+example : shipped .en .Pro "me" [("tn", "refl")] = .ok "itself".toList := by decide +kernel
+end Examples2
 
 end Pyrealb.C02
